@@ -184,7 +184,10 @@ func (pool *TxPool) AddTransaction(tx *types.Transaction) (bool, error) {
 
 	b, err := pool.add(tx)
 	if nil == err {
+		// the batch is shared with the block bookkeeping, which fills and flushes it under the lock
+		pool.lock.Lock()
 		pool.refreshGateNonce(tx)
+		pool.lock.Unlock()
 	}
 	return b, err
 }
